@@ -26,6 +26,7 @@ RULE = (
     ' Round 7: every internal/stream type x payload 0/1/none followed by a new node appearing (no hidden switches).'
     ' Round 8: `flag` ops (the application sets Node.reboot); `tasks` (every message handled in a task of its own).'
     ' Round 10: the consumer edits the yielded message after each step; every line of the alphabet is repeated later in the history.'
+    ' Round 11: environment sweep (see C03), judged on outcome and registry.'
 )
 ASSUMPTIONS = [
     "battery payloads in the definite class (plain decimal, no .5 tie, 0-100); other spellings are accepted either way",
